@@ -826,6 +826,8 @@ class FitBase(FileIOMixin, object):
             from :py:attr:`~parameter_values` will be used.
         """
         self._fitter.fix_parameter(name=name, value=value)
+        if value is not None and self._param_model is not None:
+            self._param_model.parameters = self.parameter_values  # as set_parameter_values does
         _par_index = self.parameter_names.index(name)
         self._get_model_function_parameter_formatters()[_par_index].fixed = True
         self._fit_param_names_bad_default.discard(name)
